@@ -14,6 +14,7 @@ def main():
     ap.add_argument("--tier", default=os.environ.get("VERIF_TIER", "quick"))
     ap.add_argument("--replay")
     ap.add_argument("--selfcheck", action="store_true")
+    ap.add_argument("--dump-obligations", action="store_true", help="print the names of the discharged property obligations (for tools_baseline.py)")
     a = ap.parse_args()
     if a.selfcheck:
         from checks import selfcheck
@@ -25,6 +26,8 @@ def main():
         sys.exit(rc)
     seed = int(os.environ.get("VERIF_SEED", "0") or 0)
     tier = a.tier if a.tier in ("quick", "thorough") else "quick"
+    if a.dump_obligations:
+        os.environ["VERIF_DUMP_OBLIGATIONS"] = "1"
     mod = importlib.import_module(f"checks.{a.prop.lower()}")
     try:
         rc = mod.run(tier, seed)
